@@ -105,6 +105,15 @@ def outputs(aa, inv):
     return q
 
 
+def succeeds_without_preloads(aa, twin, objs, st):
+    """The same inversion on a fresh identical dataset, nothing preloaded: does it produce its outputs?"""
+    try:
+        outputs(aa, aa.Inversion(dataset=twin(), linear_obj_list=objs, settings=st))
+        return True
+    except Exception:
+        return False
+
+
 def same(ctx, q, ref, tolc, tolh, positive=False):
     """Names of the outputs of q that differ from ref. D, F, H are compared entry-wise. The solution and what is computed from it
     (s, mapped data, regularization term) are compared entry-wise when the reference system is well conditioned (cond <= 1e7: a
@@ -350,8 +359,13 @@ def run_input(ctx, i):
             for rep in range(2):
                 try:
                     q = outputs(aa, aa.Inversion(dataset=twin(), linear_obj_list=objs, settings=st, preloads=pre))
-                except aa.exc.InversionException:
-                    ctx.skipped["producer:InversionException"] += 1
+                except aa.exc.InversionException as e:
+                    # tables / matrices produced by the library from fits of identical inputs must not make the inversion fail
+                    # where the same inversion without preloads succeeds (judged only if it does succeed again)
+                    if succeeds_without_preloads(aa, twin, objs, st):
+                        ctx.check(False, "preload.transparent", rep=rep, exception=repr(e)[:300], without_preloads="succeeds", slots_filled=filled, **W)
+                    else:
+                        ctx.skipped["producer:InversionException"] += 1
                     break
                 except Exception as e:
                     ctx.check(False, "preload.transparent", rep=rep, exception=repr(e)[:300], slots_filled=filled, **W)
@@ -398,8 +412,11 @@ def run_input(ctx, i):
                 for rep in range(2):
                     try:
                         q = outputs(aa, aa.Inversion(dataset=twin(), linear_obj_list=objs, settings=st, preloads=pre))
-                    except aa.exc.InversionException:
-                        ctx.skipped["dict_slots:InversionException"] += 1
+                    except aa.exc.InversionException as e:
+                        if succeeds_without_preloads(aa, twin, objs, st):
+                            ctx.check(False, "preload.transparent", rep=rep, exception=repr(e)[:300], without_preloads="succeeds", slots=list(subset), **W0)
+                        else:
+                            ctx.skipped["dict_slots:InversionException"] += 1
                         break
                     except Exception as e:
                         ctx.check(False, "preload.transparent", rep=rep, exception=repr(e)[:300], **W)
@@ -434,8 +451,11 @@ def run_input(ctx, i):
                     bad = same(ctx, q, ref, tolc, tolh, positive)
                     ctx.check(not bad, "preload.transparent", how=how, history="the same w-tilde tables were used by an inversion of other data before", differing=bad,
                               got={k: q.get(k) for k in bad[:2]}, expected={k: ref.get(k) for k in bad[:2]}, formalism="w_tilde", **W0)
-            except aa.exc.InversionException:
-                ctx.skipped["tables_in_between:InversionException"] += 1
+            except aa.exc.InversionException as e:
+                if succeeds_without_preloads(aa, twin, objs, st):
+                    ctx.check(False, "preload.transparent", how="w-tilde tables used by other data in between", exception=repr(e)[:300], without_preloads="succeeds", **W0)
+                else:
+                    ctx.skipped["tables_in_between:InversionException"] += 1
             except Exception as e:
                 ctx.check(False, "preload.transparent", how="w-tilde tables used by other data in between", exception=repr(e)[:300], **W0)
             ctx.case(case["m"], case["k"], "tables_in_between", nontrivial=True, cls=["formalism:w_tilde", "w_tilde_tables_shared_with_other_data"], sample=None)
